@@ -444,3 +444,54 @@ Proof.
   unfold phi, adj, cnt in P. cbn [branch init length pc_is prevc andb] in P.
   rewrite !count_strip in P by reflexivity. lia.
 Qed.
+
+(* ------------------------------------------------------------------ reaching a position of an accepted string *)
+Lemma reach a : forall s rest, J s (a ++ rest) -> accepted (go s (a ++ rest)) ->
+  exists s', J s' rest /\ accepted (go s' rest) /\
+             prevc s' = match a with [] => prevc s | _ => Some (last a " ") end.
+Proof.
+  induction a as [|c a IH]; intros s rest HJ Hacc.
+  - exists s. auto.
+  - cbn [app go] in Hacc. destruct (step s c (a ++ rest)) as [s1|r] eqn:Es;
+      [|exfalso; eapply step_stop_not_accepted; [exact Es | exact Hacc]].
+    destruct (J_step _ _ _ _ HJ Es) as [HJ1 _].
+    destruct (IH (advance c s1) rest HJ1 Hacc) as [s' [A [B C]]].
+    exists s'. split; [exact A|]. split; [exact B|]. rewrite C. destruct a; reflexivity.
+Qed.
+
+Lemma J_paren_skip s x l : J s (x :: l) -> paren x = true -> skip s = 0.
+Proof.
+  intros [_ Hreg] Hp. destruct (skip s) as [|k]; [reflexivity|]. cbn [firstn] in Hreg.
+  rewrite (region_head_not_paren _ _ Hreg) in Hp. discriminate.
+Qed.
+
+(* "()" and "((" : an empty branch, a branch without a parent atom -- anywhere *)
+Lemma reject_open_then_paren_go a y b : paren y = true ->
+  forall s, J s (a ++ "(" :: y :: b) -> ~ accepted (go s (a ++ "(" :: y :: b)).
+Proof.
+  intros Hy s HJ Hacc. destruct (reach a s _ HJ Hacc) as [s' [HJ' [Hacc' _]]].
+  pose proof (J_paren_skip _ _ _ HJ' eq_refl) as K.
+  cbn [go] in Hacc'. destruct (step s' "(" (y :: b)) as [s1|r] eqn:Es;
+    [|eapply step_stop_not_accepted; [exact Es | exact Hacc']].
+  destruct (J_step _ _ _ _ HJ' Es) as [HJ1 _].
+  pose proof (J_paren_skip _ _ _ HJ1 Hy) as K1.
+  cbn [go] in Hacc'. destruct (step (advance "(" s1) y b) as [s2|r] eqn:Es2;
+    [|eapply step_stop_not_accepted; [exact Es2 | exact Hacc']].
+  unfold step in Es2. rewrite K1 in Es2. cbn [Nat.ltb Nat.leb] in Es2.
+  unfold paren in Hy. apply orb_true_iff in Hy. destruct Hy as [Hy|Hy]; apply ceqb_eq in Hy; subst y.
+  - change (is_bond_char "(") with false in Es2. change (is_digit "(" || ceqb "(" "%") with false in Es2.
+    change (ceqb "(" "[") with false in Es2. change (ceqb "(" "(") with true in Es2. cbn iota in Es2.
+    change (pc_is (advance "(" s1) "(") with true in Es2. rewrite orb_true_r in Es2. discriminate.
+  - change (is_bond_char ")") with false in Es2. change (is_digit ")" || ceqb ")" "%") with false in Es2.
+    change (ceqb ")" "[") with false in Es2. change (ceqb ")" "(") with false in Es2.
+    change (ceqb ")" ")") with true in Es2. cbn iota in Es2.
+    change (pc_is (advance "(" s1) "(") with true in Es2. destruct (branch (advance "(" s1)); discriminate.
+Qed.
+
+Lemma reject_open_then_paren_l s a y b :
+  strip s = a ++ "(" :: y :: b -> paren y = true -> parse s = Invalid.
+Proof.
+  intros Es Hy. apply not_accepted_invalid. unfold parse. rewrite Es.
+  destruct (existsb _ _); [intros [u [v H]]; discriminate|].
+  apply reject_open_then_paren_go; [exact Hy | apply J_init].
+Qed.
